@@ -2,11 +2,17 @@
      lyplg_type_store_decimal64 / decimal64_num2str     src/plugins_types/decimal64.c
      lyplg_type_parse_dec64                             src/plugins_types.c
    The parser is transcribed with its index arithmetic ([len], [fraction], [trailing_zeros],
-   [size] are the C variables), defects included:
-     - a sign with no digit at all (the values  -  +  -SP  +.5  -.5 ) is accepted (sign only = 0),
-     - value[len + 1] is read without checking len + 1 < value_len, so the decision on a value
-       ending in '.' depends on the byte AFTER the value ([nxt] below; it is 0 when the caller
-       passes a NUL-terminated string, '<' or a quote inside XML/JSON input).
+   [size] are the C variables).
+   History: up to round 1 the code had two defects, which the model carried:
+     - a sign with no digit at all (the values  -  +  -SP  +.5  -.5 ) was accepted (sign only = 0),
+     - value[len + 1] was read without checking len + 1 < value_len, so the decision on a value
+       ending in '.' depended on the byte AFTER the value.
+   Both were fixed in /repo: commit f731599 (value[len + 1] is read only when len + 1 < value_len)
+   and commit f933623 (a sign must be followed by a digit, otherwise LY_EVALID). The model follows
+   the FIXED code: every read value[i] of the function is guarded by i < value_len, so the byte after
+   the value is not a parameter of the model any more. (&value[fraction + 1] with fraction =
+   value_len is still computed for a value without a period, but only as the source of a memcpy of
+   length 0: nothing is read through it.)
    Model only; proofs in Dec64P.v. *)
 From LY Require Import Base TypesMisc IntLex.
 Local Open Scope N_scope.
@@ -37,16 +43,18 @@ Fixpoint scan_frac (s : bytes) (n tz : nat) : nat * nat :=
 Definition I64MIN_Z : Z := (-9223372036854775808)%Z.
 Definition I64MAX_Z : Z := 9223372036854775807%Z.
 
-(* lyplg_type_parse_dec64(fraction_digits, value, value_len, &ret, &err); [nxt] = value[value_len].
+(* lyplg_type_parse_dec64(fraction_digits, value, value_len, &ret, &err).
    First half, up to the label decimal: the C variables (fraction, len, trailing_zeros) there.
-   [len1] is [len] after the optional sign. *)
-Definition dec64_scan (value : bytes) (nxt : N) (len1 : nat) : nat * nat * nat :=
+   [len1] is [len] after the optional sign. [rd value i] is only evaluated under i < value_len
+   (the conjunctions and disjunctions below are the short-circuit ones of the C condition). *)
+Definition dec64_scan (value : bytes) (len1 : nat) : nat * nat * nat :=
   let vlen := length value in
-  let vx := value ++ [nxt] in
   (* while (len < value_len && isdigit(value[len])) ++len; *)
   let len2 := (len1 + count_digits (skipn len1 value))%nat in
-  (* if ((len < value_len) && ((value[len] != '.') || !isdigit(value[len + 1]))) goto decimal; *)
-  if (len2 <? vlen)%nat && (negb (rd value len2 =? 46) || negb (is_digit (rd vx (len2 + 1))))
+  (* if ((len < value_len) && ((value[len] != '.') || (len + 1 == value_len) || !isdigit(value[len + 1])))
+       goto decimal; *)
+  if (len2 <? vlen)%nat &&
+     (negb (rd value len2 =? 46) || (len2 + 1 =? vlen)%nat || negb (is_digit (rd value (len2 + 1))))
   then (0%nat, len2, 0%nat)
   else
     (* fraction = len; ++len; the fraction loop; len = len - trailing_zeros; *)
@@ -75,7 +83,7 @@ Definition dec64_finish (fd : nat) (value : bytes) (fraction len tz : nat) : res
         else firstn len value ++ repeat 48 fd in
       plg_parse_int valcopy I64MIN_Z I64MAX_Z.
 
-Definition dec64_parse (fd : nat) (v0 : bytes) (nxt : N) : res Z :=
+Definition dec64_parse (fd : nat) (v0 : bytes) : res Z :=
   let value := skip_space v0 in                               (* consume leading whitespaces *)
   match value with
   | [] => Err E_EMPTY                                         (* !value_len *)
@@ -83,14 +91,20 @@ Definition dec64_parse (fd : nat) (v0 : bytes) (nxt : N) : res Z :=
       (* !isdigit(value[0]) && value[0] != '-' && value[0] != '+' *)
       if negb (is_digit c0) && negb (c0 =? 45) && negb (c0 =? 43) then Err E_VALID
       else
-        let len1 := if (c0 =? 45) || (c0 =? 43) then 1%nat else 0%nat in
-        let '(fraction, len, tz) := dec64_scan value nxt len1 in
-        dec64_finish fd value fraction len tz
+        (* if ((value[len] == '-') || (value[len] == '+')) { ++len;
+             if ((len == value_len) || !isdigit(value[len])) return LY_EVALID;    a sign must be followed by a digit
+           } *)
+        let sign := (c0 =? 45) || (c0 =? 43) in
+        let len1 := if sign then 1%nat else 0%nat in
+        if sign && ((len1 =? length value)%nat || negb (is_digit (rd value len1))) then Err E_VALID
+        else
+          let '(fraction, len, tz) := dec64_scan value len1 in
+          dec64_finish fd value fraction len tz
   end.
 
 (* lyplg_type_store_decimal64 for a text value: parse, then the range on the scaled integer *)
-Definition dec64_store (fd : nat) (parts : list (Z * Z)) (s : bytes) (nxt : N) : res Z :=
-  match dec64_parse fd s nxt with
+Definition dec64_store (fd : nat) (parts : list (Z * Z)) (s : bytes) : res Z :=
+  match dec64_parse fd s with
   | Err e => Err e
   | Ok n => if validate_range parts n then Ok n else Err E_RANGE
   end.
@@ -148,25 +162,11 @@ Inductive rfc_dec64_lex (fd : nat) : bytes -> Z -> Prop :=
     is_sign sg -> ip <> [] -> all_digit ip -> frac_part ft fp -> dec64_denotes fd sg ip fp n ->
     rfc_dec64_lex fd (sg ++ ip ++ ft) n.
 
-(* as coded: the digits before the period may be missing when there is a sign (defect) *)
-Inductive ly_dec64_core (fd : nat) : bytes -> Z -> Prop :=
-| LyDecCore sg ip ft fp n :
-    is_sign sg -> (ip <> [] \/ sg <> []) -> all_digit ip -> frac_part ft fp -> dec64_denotes fd sg ip fp n ->
-    ly_dec64_core fd (sg ++ ip ++ ft) n.
-
 (* with libyang's white-space tolerance stated explicitly *)
 Inductive ws_around (P : bytes -> Z -> Prop) : bytes -> Z -> Prop :=
 | WsAround ws1 core ws2 n : all_space ws1 -> all_space ws2 -> P core n -> ws_around P (ws1 ++ core ++ ws2) n.
 
-Definition ly_dec64_lex (fd : nat) : bytes -> Z -> Prop := ws_around (ly_dec64_core fd).
 Definition rfc_ws_dec64_lex (fd : nat) : bytes -> Z -> Prop := ws_around (rfc_dec64_lex fd).
-
-(* the defect inputs: after the leading white space, a sign that is not followed by a digit *)
-Definition dec64_sign_no_digit (s : bytes) : bool :=
-  match skip_space s with
-  | c :: r => ((c =? 45) || (c =? 43)) && negb (is_digit (hd 0 r))
-  | [] => false
-  end.
 
 (* RFC 7950 9.3.2 canonical form: no plus sign, the decimal point is required, leading and trailing
    zeros are prohibited except that there must be at least one digit before and after the point;
